@@ -6,6 +6,7 @@ All statements quantify over *every* number of levels, every block size and
 every per-level pattern (lists in their stored order), with no bound.
 -/
 import Pyiga.Proofs.MLRows
+import Pyiga.Proofs.MLSparsity
 
 namespace Pyiga.Props.C15
 open Pyiga.Index Pyiga.ML
@@ -258,6 +259,21 @@ theorem rows_spec (S : MLStructure) (hL : S.bs.length = S.bidx.length) (hr : InR
   simp only [] at this ⊢
   rw [this, List.map_map]
   rfl
+
+/-- **pattern from two spline spaces**: the `searchsorted` + `while` loop of
+`compute_sparsity_ij`, run on the mesh-support tables of the two knot vectors, returns exactly the
+pairs `(i, j)` of basis functions whose supports overlap in a set of positive length, row by row
+in increasing `j` — whenever the column space's table is monotone in both end points with
+non-empty supports (true for `mesh_support_idx_all` of every knot vector; re-checked on every
+table the harness sends). -/
+theorem sparsity_from_kvs (ms1 ms2 : List (Nat × Nat)) (hm : MonoSupp ms1)
+    (h2 : ∀ a ∈ ms2, a.1 < a.2) : sparsityIJ ms1 ms2 = sparsitySpec ms1 ms2 :=
+  sparsityIJ_eq_spec ms1 ms2 hm h2
+
+example : sparsityIJ [(0,1),(0,2),(1,3),(2,3)] [(0,2),(1,3)] =
+    [(0,0),(0,1),(0,2),(1,1),(1,2),(1,3)] ∧
+    sparsitySpec [(0,1),(0,2),(1,3),(2,3)] [(0,2),(1,3)] =
+    [(0,0),(0,1),(0,2),(1,1),(1,2),(1,3)] := by decide
 
 /-- **partial Kronecker product**: `kron_partial(As, rows, restrict)` produces, row by row in the
 order of `rows`, exactly the positions of the Kronecker pattern lying in that row, each with the
